@@ -79,20 +79,22 @@ theorem filterMap_map_t (F : Operand → Option Nat) (hF : ∀ i, F (.t i) = som
   | cons i r ih => simp [List.filterMap_cons, hF, ih]
 
 /-- what `opStepOut` produces, written out (tensor-only operands, no `where=`): the heap and the id of the result -/
-def outCore (h : Heap) (kind : Kind) (users vars : List Nat) (out : Arr) : Heap × Nat :=
+def outCore (h : Heap) (kind : Kind) (users vars : List Nat) (out : Arr)
+    (wm : Option (Shape × List Bool) := none) : Heap × Nat :=
   let h := users.foldl (fun h v =>
     let tv := h.t v
     let h := if tv.base.isSome ∧ tv.creator.isNone then h.modT v ({ · with base := none }) else h
     h.modT v ({ · with grad := none, viewGrad := none })) h
   let c : Bool := !(vars.any fun v => !(h.t v).const)
   let (h, f) := h.fresh
-  let h := h.setOp f { kind := kind, vars := vars, whereMask := none }
+  let h := h.setOp f { kind := kind, vars := vars, whereMask := wm }
   let h := vars.foldl (fun h v => h.modT v fun t => { t with ops := f :: t.ops }) h
   let (h, o) := h.fresh
   (h.setT o { data := out, const := c, creator := some f }, o)
 
-def outRes (h : Heap) (kind : Kind) (users vars : List Nat) (out : Arr) (vals : List Int) : Heap × Nat :=
-  outCore (h.write out vals) kind users vars out
+def outRes (h : Heap) (kind : Kind) (users vars : List Nat) (out : Arr) (vals : List Int)
+    (wm : Option (Shape × List Bool) := none) : Heap × Nat :=
+  outCore (h.write out vals) kind users vars out wm
 
 theorem opStepOut_tensors (h : Heap) (kind : Kind) (ids : List Nat) (out : Arr) (vals : List Int)
     (hw : outWrite kind (ids.map fun i => h.val (h.t i).data) out.d.shape (h.read out) none = .ok vals) :
@@ -111,13 +113,14 @@ open MG.Eng MG.ND MG.C13
 theorem kept_write (h : Heap) (a : Arr) (vals : List Int) : ∀ t, ((h.write a vals).t t) = h.t t := fun _ => rfl
 theorem next_write (h : Heap) (a : Arr) (vals : List Int) : (h.write a vals).next = h.next := rfl
 
-theorem outCore_spec (h : Heap) (kind : Kind) (users vars : List Nat) (out : Arr) :
-    (outCore h kind users vars out).2 = h.next + 1 ∧
-    (outCore h kind users vars out).1.bufs = h.bufs ∧
-    ((outCore h kind users vars out).1.t (h.next + 1)).data = out ∧
-    ((outCore h kind users vars out).1.t (h.next + 1)).base = none ∧
-    (∀ t, t ≠ h.next + 1 → ((outCore h kind users vars out).1.t t).data = (h.t t).data ∧
-      ((outCore h kind users vars out).1.t t).const = (h.t t).const) := by
+theorem outCore_spec (h : Heap) (kind : Kind) (users vars : List Nat) (out : Arr)
+    (wm : Option (Shape × List Bool) := none) :
+    (outCore h kind users vars out wm).2 = h.next + 1 ∧
+    (outCore h kind users vars out wm).1.bufs = h.bufs ∧
+    ((outCore h kind users vars out wm).1.t (h.next + 1)).data = out ∧
+    ((outCore h kind users vars out wm).1.t (h.next + 1)).base = none ∧
+    (∀ t, t ≠ h.next + 1 → ((outCore h kind users vars out wm).1.t t).data = (h.t t).data ∧
+      ((outCore h kind users vars out wm).1.t t).const = (h.t t).const) := by
   -- name the intermediate heaps
   let h1 := h
   let step1 : Heap → Nat → Heap := fun h v =>
@@ -138,7 +141,7 @@ theorem outCore_spec (h : Heap) (kind : Kind) (users vars : List Nat) (out : Arr
   have K2 : Kept h1 h2 := kept_foldl users step1 k1 h1
   have N2 : h2.next = h.next := (next_foldl users step1 n1 h1).trans rfl
   let f := h2.next
-  let h3 := (h2.fresh.1).setOp f { kind := kind, vars := vars, whereMask := none }
+  let h3 := (h2.fresh.1).setOp f { kind := kind, vars := vars, whereMask := wm }
   let step2 : Heap → Nat → Heap := fun h v => h.modT v fun t => { t with ops := f :: t.ops }
   have k2 : ∀ h c, Kept h (step2 h c) := fun h c => kept_modT _ _ _ (fun _ => rfl) (fun _ => rfl)
   let h4 := vars.foldl step2 h3
@@ -149,7 +152,7 @@ theorem outCore_spec (h : Heap) (kind : Kind) (users vars : List Nat) (out : Arr
     rw [N2]
   have K3 : Kept h2 h3 := (kept_fresh h2).trans (kept_setOp _ _ _)
   have K : Kept h1 h4 := K2.trans (K3.trans K4)
-  have e : outCore h kind users vars out =
+  have e : outCore h kind users vars out wm =
       ((h4.fresh.1).setT h4.next { data := out, const := !(vars.any fun v => !(h2.t v).const), creator := some f }, h4.next) := rfl
   rw [e]
   refine ⟨N4, ?_, ?_, ?_, ?_⟩
@@ -164,14 +167,15 @@ theorem outCore_spec (h : Heap) (kind : Kind) (users vars : List Nat) (out : Arr
     exact ⟨(K.2 t).1, (K.2 t).2⟩
 
 
-theorem outRes_spec (h : Heap) (kind : Kind) (users vars : List Nat) (out : Arr) (vals : List Int) :
-    (outRes h kind users vars out vals).2 = h.next + 1 ∧
-    (outRes h kind users vars out vals).1.bufs = (h.write out vals).bufs ∧
-    ((outRes h kind users vars out vals).1.t (h.next + 1)).data = out ∧
-    ((outRes h kind users vars out vals).1.t (h.next + 1)).base = none ∧
-    (∀ t, t ≠ h.next + 1 → ((outRes h kind users vars out vals).1.t t).data = (h.t t).data ∧
-      ((outRes h kind users vars out vals).1.t t).const = (h.t t).const) :=
-  outCore_spec (h.write out vals) kind users vars out
+theorem outRes_spec (h : Heap) (kind : Kind) (users vars : List Nat) (out : Arr) (vals : List Int)
+    (wm : Option (Shape × List Bool) := none) :
+    (outRes h kind users vars out vals wm).2 = h.next + 1 ∧
+    (outRes h kind users vars out vals wm).1.bufs = (h.write out vals).bufs ∧
+    ((outRes h kind users vars out vals wm).1.t (h.next + 1)).data = out ∧
+    ((outRes h kind users vars out vals wm).1.t (h.next + 1)).base = none ∧
+    (∀ t, t ≠ h.next + 1 → ((outRes h kind users vars out vals wm).1.t t).data = (h.t t).data ∧
+      ((outRes h kind users vars out vals wm).1.t t).const = (h.t t).const) :=
+  outCore_spec (h.write out vals) kind users vars out wm
 
 end MG.C04R
 
@@ -351,7 +355,8 @@ theorem keptV_foldl {γ} (xs : List γ) (step : Heap → γ → Heap) (hs : ∀ 
   | cons c cs ih => simp only [List.foldl_cons]; exact (hs h c).trans (ih _)
 
 theorem outCore_vchildren (h : Heap) (kind : Kind) (users vars : List Nat) (out : Arr) (t : Nat)
-    (ht : t ≠ h.next + 1) : ((outCore h kind users vars out).1.t t).vchildren = (h.t t).vchildren := by
+    (ht : t ≠ h.next + 1)
+    (wm : Option (Shape × List Bool) := none) : ((outCore h kind users vars out wm).1.t t).vchildren = (h.t t).vchildren := by
   let h1 := h
   let step1 : Heap → Nat → Heap := fun h v =>
     let tv := h.t v
@@ -371,7 +376,7 @@ theorem outCore_vchildren (h : Heap) (kind : Kind) (users vars : List Nat) (out 
   have K2 : KeptV h1 h2 := keptV_foldl users step1 k1 h1
   have N2 : h2.next = h.next := (next_foldl users step1 n1 h1).trans rfl
   let f := h2.next
-  let h3 := (h2.fresh.1).setOp f { kind := kind, vars := vars, whereMask := none }
+  let h3 := (h2.fresh.1).setOp f { kind := kind, vars := vars, whereMask := wm }
   let step2 : Heap → Nat → Heap := fun h v => h.modT v fun t => { t with ops := f :: t.ops }
   have k2 : ∀ h c, KeptV h (step2 h c) := fun h c => keptV_modT _ _ _ (fun _ => rfl)
   let h4 := vars.foldl step2 h3
@@ -381,7 +386,7 @@ theorem outCore_vchildren (h : Heap) (kind : Kind) (users vars : List Nat) (out 
     show h2.next + 1 = _
     rw [N2]
   have K : KeptV h1 h4 := K2.trans (KeptV.trans (b := h3) (fun _ => rfl) K4)
-  have e : outCore h kind users vars out =
+  have e : outCore h kind users vars out wm =
       ((h4.fresh.1).setT h4.next { data := out, const := !(vars.any fun v => !(h2.t v).const), creator := some f }, h4.next) := rfl
   rw [e]
   have hne : t ≠ h4.next := by rw [N4]; exact ht
@@ -391,8 +396,9 @@ theorem outCore_vchildren (h : Heap) (kind : Kind) (users vars : List Nat) (out 
 
 
 theorem outRes_vchildren (h : Heap) (kind : Kind) (users vars : List Nat) (out : Arr) (vals : List Int) (t : Nat)
-    (ht : t ≠ h.next + 1) : ((outRes h kind users vars out vals).1.t t).vchildren = (h.t t).vchildren :=
-  outCore_vchildren (h.write out vals) kind users vars out t ht
+    (ht : t ≠ h.next + 1)
+    (wm : Option (Shape × List Bool) := none) : ((outRes h kind users vars out vals wm).1.t t).vchildren = (h.t t).vchildren :=
+  outCore_vchildren (h.write out vals) kind users vars out t ht wm
 
 end MG.C04R
 
